@@ -265,6 +265,17 @@ def _solve_one(args):
             s = s2
             if r != z3.unknown:
                 break
+    if r == z3.unknown and not _has_rec(ob.goal):
+        # last stage: recursive spec functions (sums, membership) in hypotheses the goal does not mention make
+        # z3 give up early; proving the goal from fewer hypotheses is sound
+        sliced = [c for c in pcs if not _has_rec(c)]
+        if len(sliced) < len(pcs):
+            s3 = z3.Solver()
+            s3.set('timeout', min(timeout_ms, 15000))
+            s3.add(*sliced)
+            s3.add(z3.Not(ob.goal))
+            if s3.check() == z3.unsat:
+                return idx, 'unsat', time.time() - t0, None, 'z3-sliced'
     model = None
     smt2 = None
     if r == z3.sat:
@@ -279,6 +290,25 @@ def _solve_one(args):
     elif r == z3.unknown:
         smt2 = s.to_smt2()
     return idx, str(r), time.time() - t0, model, ('z3', smt2)
+
+
+def _has_rec(e):
+    """Does the term apply a recursive (define-fun-rec) function?"""
+    seen = set()
+    todo = [e]
+    while todo:
+        t = todo.pop()
+        i = t.get_id()
+        if i in seen:
+            continue
+        seen.add(i)
+        if z3.is_quantifier(t):
+            todo.append(t.body())
+        elif z3.is_app(t):
+            if t.decl().kind() == z3.Z3_OP_RECURSIVE:
+                return True
+            todo.extend(t.children())
+    return False
 
 
 def _external(smt2, timeout_s, only=None):
